@@ -261,4 +261,34 @@ def asciiUni : Uni where
   toLower r := if 65 ≤ r ∧ r ≤ 90 then r + 32 else r
   foldEq a b := decide (65 ≤ a ∧ a ≤ 90 ∧ b = a + 32) || decide (65 ≤ b ∧ b ≤ 90 ∧ a = b + 32)
 
+/-! ## Chords both protocols express (domain of `cross_protocol`) -/
+
+def xpSpecial : List Int :=
+  xtermLetterKeys.map (·.1) ++ xtermTildeKeys.map (·.1) ++ [KeyTab, KeyEnter, KeyEsc, KeyBackspace]
+
+/-- Chords both protocols can express: (key, mods ⊆ Shift|Alt|Ctrl, character Shift produces). -/
+def xpChords : List (Int × Nat × Int) :=
+  (xpSpecial.flatMap fun k => (List.range 8).map fun m => (k, m, (0 : Int))) ++
+  ((List.range 95).flatMap fun (i : Nat) =>
+    let c : Int := 32 + Int.ofNat i
+    if 65 ≤ c ∧ c ≤ 90 then [] else (List.range 8).map fun m => (c, m, asciiUni.toUpper c))
+
+/-- The kitty reports (number, final) that denote `key`. -/
+def kittyCodes (key : Int) : List (Int × Int) :=
+  let fs := functional.filterMap fun e => if e.2 = key then some e.1 else none
+  if fs = [] then [(key, 117)] else fs
+
+/-- The kitty field combinations considered for a chord: the modifier field is present when there are
+    modifiers, the shifted code when Shift is held on a character key; with/without event type; with
+    the produced text for unmodified / shifted character keys. -/
+def xpForms (key : Int) (mods : Nat) : List (Form × Bool) :=
+  let char := decide (32 ≤ key ∧ key < 127)
+  let sh := char && decide (mods &&& 1 ≠ 0)
+  let base : List (Form × Bool) :=
+    [({ withMods := true, withShifted := sh }, false), ({ withMods := true, withEvent := true, withShifted := sh }, false)]
+  let bare : List (Form × Bool) := if mods = 0 then [({}, false)] else []
+  let text : List (Form × Bool) := if char ∧ mods &&& 6 = 0 then [({ withMods := true, withShifted := sh, withText := true }, true)] else []
+  bare ++ base ++ text
+
+
 end VaxisModel.Spec.KeyEnc
